@@ -70,6 +70,10 @@ CLAIMED = {
     text="(R1) header: the reader layout (6 big-endian u16 fields, from the dissector arms) and the 12-byte writer layout agree field by field; QR/OPCODE/RD are parsed at bits 15/11/8 of the flags word and serialised at bits 7/3/0 of its high byte (shift agreement), the low flags byte is 0; the response copies ID, OPCODE, RD, QDCOUNT, sets QR=1 and ANCOUNT=QDCOUNT, NSCOUNT/ARCOUNT stay 0; (R2) inside the loop over the query's questions every iteration that continues pushes exactly one echoed question (re-parsed serialisation of the parsed question) and one answer (that question's repl()), otherwise the function returns None; (R3) an answer exists only behind class==IN and type==A (enum discriminant gates), with type A, class IN, positive TTL, RDATA = octets of client_info.ip.dst (IPv4), RDLENGTH = len(RDATA), owner name copied from the question; record and question wire order name/type/class(/ttl/rdlen/rdata) with 2/2/4/2-byte big-endian fields; the u16<->enum code tables are evaluated exhaustively (A=1, IN=1, 28 and 3 are not A/IN); (R4) try_from yields Ok only behind state==End, the end-anchored signature search runs only after NO_MATCH, DNS parsing only behind id==NO_MATCH and only on the datagram path.",
     note="Label structure of names (lengths 0..63, compression, zero bytes inside labels) is not interpreted by the code and not decided here; equality of the number of parsed questions with QDCOUNT is a parser-state invariant (not decided).",
     technique="reader/writer layout extraction + provenance + loop-body must-pass + exhaustive evaluation of code tables on MIR", ref="§4 C14"),
+ 'C15': dict(
+    text="(R1) the transaction id is read as big-endian u128 from bytes 4..20 and the serializer writes id.to_be_bytes() at offset 4 after the 2-byte length at offset 2; the class decoder is evaluated on all 65536 leading byte pairs and equals (byte0 bit0, byte1 bit4); with first byte 00 the request test (class 0, method 1) holds for second byte 01 only; the response is written with class 2 / method 1 and the serializer's two type bytes evaluate to 01 01; response.id is the parsed request id; set_length() (0 then += 4 + attr.len()) runs after the attribute push and before serialisation; (R2) the single attribute pushed is MAPPED-ADDRESS built from client_info.ip.src / port.src with type 1, reserved 0, family 1/2 and value length 4+4 / 4+16 selected on the address variant, serialised type,length,reserved,family,port(be),octets. The change-port rewrite is C03-R2, the class/method gates C12-R2.",
+    note="Malformed TLVs are only decided as far as no-panic (C01). The extracted method decoder mis-places method bits above bit 3; harmless behind the dispatcher signature (00 01) and reported as an observation, not claimed.",
+    technique="provenance + writer layout + exhaustive evaluation of the bit-field codec expressions on MIR", ref="§4 C15"),
 }
 
 NOT_YET = {}
